@@ -98,7 +98,10 @@ def run_history(w, hist: str, shared: bool, api: str, advancing: bool, real_entr
     return out, ent
 
 
-def judge(acc, w, hist: str, shared: bool, api: str, advancing: bool, real_entropy: bool) -> None:
+_PROCESS_SEEN: t.Dict[str, t.Dict[bytes, t.Any]] = {"cek": {}, "gcm-nonce": {}, "key_info": {}}
+
+
+def judge(acc, w, hist: str, shared: bool, api: str, advancing: bool, real_entropy: bool, shard_case=None) -> None:
     case = ["hist", hist, shared, api, advancing, real_entropy]
     res, ent = run_history(w, hist, shared, api, advancing, real_entropy)
     ceks: t.List[bytes] = []
@@ -133,6 +136,16 @@ def judge(acc, w, hist: str, shared: bool, api: str, advancing: bool, real_entro
         if len(set(vals)) != len(vals):
             dup = [i for i, x in enumerate(vals) if vals.index(x) != i]
             acc.violate(f"reused.{name}", case, {"protect_calls": len(vals), "repeat_at": dup, "value": vals[dup[0]].hex()[:80]}, size=len(hist))
+    if real_entropy:
+        # with the real entropy sources every value ever produced in this process must be new, also across histories
+        for name, vals in (("cek", ceks), ("gcm-nonce", nonces), ("key_info", infos)):
+            seen = _PROCESS_SEEN[name]
+            for x in vals:
+                if x in seen and seen[x] != case:
+                    # replayable only as the whole shard (the repeat depends on every call made before in this process)
+                    acc.violate(f"reused.{name}.across-calls-in-process", shard_case or case, {"history": case, "first_seen_in": seen[x], "value": x.hex()[:80], "calls_so_far": len(seen)}, size=10**5)
+                    break
+                seen[x] = case
     for pt, lst in cts.items():
         if len(set(lst)) != len(lst):
             acc.violate("equal-ciphertexts", case, {"plaintext": pt.hex()}, size=len(hist))
@@ -144,7 +157,7 @@ def judge(acc, w, hist: str, shared: bool, api: str, advancing: bool, real_entro
 
 
 def shards(tier: str, seed: int):
-    out = []
+    out = [["long", api] for api in ("sync", "async")]
     depth = 4 if tier == "quick" else 5
     for first in OPS:
         for shared in (True, False):
@@ -156,6 +169,18 @@ def shards(tier: str, seed: int):
 def run_shard(shard, tier, seed, acc) -> None:
     seams.block_network()
     w = world(seed)
+    for d_ in _PROCESS_SEEN.values():
+        d_.clear()  # per shard, so that a shard is a self-contained, replayable unit
+    if shard[0] == "long":
+        # one long history (N protects with identical / alternating arguments, far beyond the depth bound) under both entropy sources
+        for hist in ("A" * 256, "AB" * 40 + "U" + "AC" * 24, "E" * 12 + "D" * 6):
+            for real in (False, True):
+                judge(acc, w, hist, True, shard[1], False, real, ["shard", shard, tier])
+                acc.ev()
+                acc.states += 1
+                acc.transitions += len(hist)
+        acc.sample({"long_history": "96 x protect(P1,SID1) in one process", "api": shard[1]})
+        return
     _, first, shared, api, depth = shard
     n = 0
     for k in range(0, depth):
@@ -171,7 +196,7 @@ def run_shard(shard, tier, seed, acc) -> None:
                         if len(hist) > 3:
                             n += 1
                             continue
-                    judge(acc, w, hist, shared, api, advancing, real)
+                    judge(acc, w, hist, shared, api, advancing, real, ["shard", shard, tier])
                     n += 1
                     acc.ev()
                     acc.states += 1
